@@ -637,12 +637,6 @@ static std::string runOne(int cap, const std::vector<ThreadProg> &prog, const vf
                                                          : "external";
   w->tr.add(vf::Ev("End").str("outcome", oc).strs("stuck", r.stuck).i("steps", (long long)r.steps.size()));
   std::string text = w->tr.text();
-  if (getenv("VF_STEPLOG"))
-  {
-    std::string s = "%T";
-    for (auto &st : r.steps) s += " " + st.thread + "/" + st.op;
-    text += s + "\n";
-  }
   if (emitSched)
   {
     std::string s = "#S";
